@@ -39,6 +39,9 @@ pub struct Report {
 pub static REPORT: Mutex<Option<Report>> = Mutex::new(None);
 static ARGS: Mutex<Option<Args>> = Mutex::new(None);
 static CALL_SEQ: AtomicU64 = AtomicU64::new(0);
+/// true only while a library call made through `guard` is open: harness-side work (oracles)
+/// must never be mistaken for a call that does not return
+static IN_CALL: std::sync::atomic::AtomicBool = std::sync::atomic::AtomicBool::new(false);
 static CUR_FN: Mutex<&'static str> = Mutex::new("");
 static CUR_CASE: Mutex<Option<(u64, Value)>> = Mutex::new(None);
 
@@ -274,7 +277,11 @@ impl Caught {
 pub fn guard<R>(fname: &'static str, f: impl FnOnce() -> R) -> Result<R, Caught> {
     calling(fname);
     LAST_PANIC.with(|p| *p.borrow_mut() = None);
-    match catch_unwind(AssertUnwindSafe(f)) {
+    IN_CALL.store(true, Ordering::SeqCst);
+    let result = catch_unwind(AssertUnwindSafe(f));
+    IN_CALL.store(false, Ordering::SeqCst);
+    CALL_SEQ.fetch_add(1, Ordering::SeqCst);
+    match result {
         Ok(r) => Ok(r),
         Err(payload) => {
             if let Some(b) = payload.downcast_ref::<graphrs::verif_hooks::BudgetExceeded>() {
@@ -326,7 +333,7 @@ fn start_watchdog(budget_s: f64) {
             std::thread::sleep(std::time::Duration::from_millis(250));
             let seq = CALL_SEQ.load(Ordering::SeqCst);
             let cpu = process_cpu_seconds();
-            if seq != last_seq {
+            if seq != last_seq || !IN_CALL.load(Ordering::SeqCst) {
                 last_seq = seq;
                 cpu_at_change = cpu;
                 continue;
